@@ -1858,7 +1858,12 @@ func privateAlloc(a *ssa.Alloc) bool {
 					return false
 				}
 			case *ssa.MakeClosure:
-				// the closure may only be run from here: go, defer or a direct call
+				// a closure that only ever reads the variable (also when it escapes, e.g. a callback
+				// handed to a library) cannot change it
+				if closureOnlyReads(u, v, 0) {
+					continue
+				}
+				// otherwise the closure may only be run from here: go, defer or a direct call
 				crs := u.Referrers()
 				if crs == nil {
 					return false
@@ -1889,6 +1894,50 @@ func privateAlloc(a *ssa.Alloc) bool {
 		return true
 	}
 	return okAddr(a, 0)
+}
+
+// closureOnlyReads: the function literal mc captures the variable whose address is v and does
+// nothing with it but load it (directly, or in nested literals that only load it).
+func closureOnlyReads(mc *ssa.MakeClosure, v ssa.Value, depth int) bool {
+	if depth > 3 {
+		return false
+	}
+	fn, ok := mc.Fn.(*ssa.Function)
+	if !ok {
+		return false
+	}
+	if fn.Blocks == nil && fn.Pkg != nil {
+		fn.Pkg.Build()
+	}
+	for i, b := range mc.Bindings {
+		if b != v {
+			continue
+		}
+		if i >= len(fn.FreeVars) {
+			return false
+		}
+		fv := fn.FreeVars[i]
+		rs := fv.Referrers()
+		if rs == nil {
+			continue
+		}
+		for _, r := range *rs {
+			switch u := r.(type) {
+			case *ssa.UnOp:
+				if u.Op != token.MUL {
+					return false
+				}
+			case *ssa.DebugRef:
+			case *ssa.MakeClosure:
+				if !closureOnlyReads(u, fv, depth+1) {
+					return false
+				}
+			default:
+				return false
+			}
+		}
+	}
+	return true
 }
 
 func (x *Exec) execSlice(fr *frame, st *State, i *ssa.Slice) error {
